@@ -300,10 +300,10 @@ func runC12(c c12Case) Verdict {
 	if m.diverged {
 		return Verdict{Discard: "script runs more than 300 statements without yielding"}
 	}
-	if m.stats.errs > 0 {
+	if m.stats.errs > 0 && !m.sawBoom {
 		return Verdict{Discard: "generated script is not fault-free"}
 	}
-	if len(m.trace) == 0 || m.trace[len(m.trace)-1].K != "end" {
+	if !m.sawBoom && (len(m.trace) == 0 || m.trace[len(m.trace)-1].K != "end") {
 		return Verdict{Discard: "no end within the element limit"}
 	}
 	h, err := newHost(srcs, "abc", c.Vars)
@@ -318,6 +318,10 @@ func runC12(c c12Case) Verdict {
 	})
 	// the runner is driven until it reports the end itself; whether it got there the right way is C01's business
 	h.drive(c.Choices, nil, flowMaxEv, true)
+	if n := len(h.trace); n > 0 && h.trace[n-1].K == "panic" && m.sawBoom {
+		// the host's own panic came out of Next: no end was reported, nothing to check
+		return Verdict{Classes: []string{"host-panic-propagated"}}
+	}
 	if n := len(h.trace); n == 0 || h.trace[n-1].K != "end" {
 		return Verdict{Discard: "the runner reports no end within the element limit (C01/C06's business)"}
 	}
@@ -358,6 +362,10 @@ var c12End = Register(Prop[c12Case]{
 	ID: "C12", Name: "absorbing-end",
 	Gen: func(t *rapid.T) c12Case {
 		o := scriptOpts{maxNodes: 3, maxDepth: 3, maxBody: 4, stopBias: 2, forwardOnly: true, extraStmt: func(g *scriptGen, depth int) *Stmt {
+			if rapid.IntRange(0, 5).Draw(g.t, "boom") == 0 {
+				// a host function that panics: whatever Next does about it, it must not claim that the dialogue has ended and then go on
+				return &Stmt{K: "call", Fn: "boom"}
+			}
 			if rapid.IntRange(0, 1).Draw(g.t, "wait") == 0 {
 				// a command that completes by itself a little later: the call that sees it finish must go on, not end
 				return &Stmt{K: "cmd", Words: []TextPart{{S: "wait"}, {S: rapid.SampledFrom([]string{"0", "0.0002", "0.002"}).Draw(g.t, "secs")}}}
